@@ -380,6 +380,9 @@ class Engine:
                     return self.apply_contract(k, [base], {}, n, st)
                 return ("bound", base, k)
             raise OutOfSubset(n, f"attribute {attr} of object {base.cls}")
+        if isinstance(base, V) and isinstance(base.ty, TObj) and (base.ty.name, attr) in getattr(self.c, "heap_fields", {}):
+            # a mutable attribute of an opaque object: read from the ghost heap field (an array object -> value) of the current state
+            return V(self.c.heap_fields[(base.ty.name, attr)], z3.Select(st.env[f"$heap.{base.ty.name}.{attr}"].t, base.t))
         if isinstance(base, V):
             ty = base.ty
             if isinstance(ty, TRec) and attr in ty.fields:
@@ -1815,6 +1818,14 @@ class Engine:
                     val = self.empty_of(old.ty)
                 base.attrs[attr] = val
                 return
+            if isinstance(base, V) and isinstance(base.ty, TObj) and (base.ty.name, attr) in getattr(self.c, "heap_fields", {}):
+                fty = self.c.heap_fields[(base.ty.name, attr)]
+                hname = f"$heap.{base.ty.name}.{attr}"
+                if self.c.frame is not None:
+                    self.oblige(st, "frame", node, z3.BoolVal(f"{base.ty.name}.{attr}" in self.c.frame), f"store to {base.ty.name}.{attr} outside modifies={sorted(self.c.frame)}")
+                cur = st.env[hname]
+                st.env[hname] = V(cur.ty, z3.Store(cur.t, base.t, self.coerce(val, fty, node).t))
+                return
             raise OutOfSubset(node, "attribute store on non-object")
         if isinstance(tgt, ast.Subscript):
             base = self.ev(tgt.value, st)
@@ -2102,6 +2113,10 @@ class Engine:
                             stack.append(y.value)
                         elif isinstance(y, ast.Name):
                             names.add(y.id)
+                    if isinstance(t, ast.Attribute):
+                        for (cls_, attr_) in getattr(self.c, "heap_fields", {}):
+                            if attr_ == self.mangle(t.attr):
+                                names.add(f"$heap.{cls_}.{attr_}")
                     root = t
                     while isinstance(root, ast.Subscript):
                         root = root.value
